@@ -4,7 +4,9 @@ package c11
 import (
 	"bytes"
 	"fmt"
+	"io"
 	"os"
+	"path/filepath"
 	"runtime"
 	"testing"
 	"time"
@@ -32,7 +34,32 @@ type Case struct {
 	// LongGate: the gate stays shut for several seconds instead of 120 ms ("however slow the writer is":
 	// an implementation that waits for its writers only for a grace period returns inside that window).
 	LongGate bool `json:"long_gate"`
+	// EOFWith: the input reader returns its last data together with io.EOF (as gzip readers and some
+	// network readers do).  Display / Record: rtcmfilter's optional logs are switched on.
+	EOFWith bool `json:"eof_with_data"`
+	Display bool `json:"display_messages"`
+	Record  bool `json:"record_messages"`
 }
+
+type dataErrReader struct {
+	data    []byte
+	pos     int
+	eofWith bool
+}
+
+func (r *dataErrReader) Read(p []byte) (int, error) {
+	if r.pos >= len(r.data) {
+		return 0, io.EOF
+	}
+	n := copy(p, r.data[r.pos:])
+	r.pos += n
+	if r.eofWith && r.pos >= len(r.data) {
+		return n, io.EOF
+	}
+	return n, nil
+}
+
+var logDirNo int
 
 const window = 120 * time.Millisecond
 
@@ -45,14 +72,29 @@ func longWindow() time.Duration {
 
 func run(app string, input []byte, w interface {
 	Write([]byte) (int, error)
-}) chan struct{} {
+}, opt ...Case) chan struct{} {
 	done := make(chan struct{})
+	cfg := &jsonconfig.Config{}
+	var rd io.Reader = bytes.NewReader(input)
+	if len(opt) > 0 {
+		rd = &dataErrReader{data: input, eofWith: opt[0].EOFWith}
+		if app == "rtcmfilter" && (opt[0].Display || opt[0].Record) {
+			logDirNo++
+			dir := filepath.Join(os.Getenv("VERIF_SCRATCH"), fmt.Sprintf("c11-logs-%d", logDirNo))
+			if os.Getenv("VERIF_SCRATCH") == "" {
+				dir, _ = os.MkdirTemp("", "c11-logs-")
+			}
+			cfg.DisplayMessages, cfg.RecordMessages, cfg.MessageLogDirectory = opt[0].Display, opt[0].Record, dir
+		}
+	}
 	go func() {
-		cfg := &jsonconfig.Config{}
 		if app == "displayrtcm3" {
-			displayrtcm3.HandleMessages(drive.StartTime, bytes.NewReader(input), w, cfg)
+			displayrtcm3.HandleMessages(drive.StartTime, rd, w, cfg)
 		} else {
-			rtcmfilter.HandleMessages(drive.StartTime, bytes.NewReader(input), w, cfg)
+			rtcmfilter.HandleMessages(drive.StartTime, rd, w, cfg)
+		}
+		if cfg.MessageLogDirectory != "" {
+			os.RemoveAll(cfg.MessageLogDirectory)
 		}
 		close(done)
 	}()
@@ -99,7 +141,7 @@ func check(c Case, o *stats.Obs) error {
 	}
 	if c.Gate {
 		g := appsup.NewGateWriter(len(want))
-		done := run(c.App, input, g)
+		done := run(c.App, input, g, c)
 		select {
 		case <-g.Blocked:
 		case <-done:
@@ -145,7 +187,7 @@ func check(c Case, o *stats.Obs) error {
 		for _, d := range c.Delays {
 			w.Delays = append(w.Delays, time.Duration(d)*time.Microsecond)
 		}
-		done := run(c.App, input, w)
+		done := run(c.App, input, w, c)
 		select {
 		case <-done:
 		case <-time.After(30 * time.Second):
@@ -167,6 +209,10 @@ func check(c Case, o *stats.Obs) error {
 			}
 		}
 		final := w.Snapshot()
+		if bytes.Equal(atReturn, final) && !bytes.Equal(final, want) && len(final) < len(want) {
+			o.Key = c.App + "/incomplete-at-return"
+			return fmt.Errorf("%s: HandleMessages returned with %d of the %d bytes of its complete output written, and nothing more followed (eof with data: %v, display %v, record %v)", c.App, len(final), len(want), c.EOFWith, c.Display, c.Record)
+		}
 		if !bytes.Equal(atReturn, final) {
 			o.Key = c.App + "/incomplete-at-return"
 			return fmt.Errorf("%s: when HandleMessages returned the writer held %d bytes, after quiescence %d (complete output %d bytes): the tail was written after the return", c.App, len(atReturn), len(final), len(want))
@@ -213,6 +259,9 @@ func gen1(t *rapid.T) Case {
 		}
 	}
 	c.Procs = rapid.SampledFrom([]int{0, 1, 4, 16}).Draw(t, "procs")
+	c.EOFWith = rapid.Bool().Draw(t, "eofWithData")
+	c.Display = rapid.IntRange(0, 3).Draw(t, "display") == 1
+	c.Record = rapid.IntRange(0, 3).Draw(t, "record") == 1
 	return c
 }
 
